@@ -191,7 +191,8 @@ class PipeEndpoint():
 
         try:
             return self._pipe.recv()
-        except (EOFError, BrokenPipeError):
+        except (EOFError, OSError):
+            # OSError: also a message cut short by the death of the sender ("got end of file during message")
             raise queue.Empty
 
     def get_nowait(self):
